@@ -116,7 +116,7 @@ func ExactlyOnce(ti *TraceIndex, exp *ref.Result) []Problem {
 
 // IsHarnessFile tells whether a path in the working directory is not subject to judgement.
 func IsHarnessFile(p string) bool {
-	return strings.HasSuffix(p, ".audit.json") || p == "log" || strings.HasPrefix(p, "log/")
+	return IsAuditFile(p) || p == "log" || strings.HasPrefix(p, "log/")
 }
 
 // FilesMatch compares the regular files of a snapshot with the expectation.
@@ -190,4 +190,16 @@ func Summarize(ps []Problem, n int) []string {
 		out = append(out, p.String())
 	}
 	return out
+}
+
+// IsAuditFile tells whether p is an audit file or one of the hidden temporary files the library writes beside an audit
+// file before moving it into place (".<name>.<random>.audit.json" today; any hidden name that contains ".audit.json"
+// counts - how the temporary is called is not fixed by any property). Audit files are not "outputs at their final
+// path" and are judged by C10 / C11 only.
+func IsAuditFile(p string) bool {
+	if strings.HasSuffix(p, ".audit.json") {
+		return true
+	}
+	b := filepath.Base(p)
+	return strings.HasPrefix(b, ".") && strings.Contains(b, ".audit.json")
 }
